@@ -262,11 +262,11 @@ func c10(c *Ctx) {
 					}
 					symField := ""
 					for _, a := range origins(other) {
-						if _, fv, ok := fieldRef(a.V); ok && fv != nil && (fv.Name() == "Entry" || fv.Name() == "Value") {
+						if _, fv, ok := fieldRef(a.V); ok && fv != nil && (fv.Name() == "Entry" || fv.Name() == "End" || fv.Name() == "Value") {
 							symField = fv.Name()
 						}
 					}
-					kindOK := symField != "" && (symField == "Entry") == slideIsFunc[g]
+					kindOK := symField != "" && (symField != "Value") == slideIsFunc[g]
 					r.Check(bo.Op == token.ADD && kindOK, "C10.R3", "slide "+g.Name()+" applied in "+shortName(f), p.Pos(posOf(bo)), "symbol's table address + slide of its kind",
 						"a by-name lookup combines the load slide with the symbol's table address by something other than addition (or with the slide of the other kind): the address handed out is not the symbol's run-time address")
 				}
